@@ -73,7 +73,7 @@ func (p *Prog) buildHelperIndex() {
 		}
 	}
 	for _, fn := range p.funcs {
-		if fn.Decl.Body == nil || fn.Obj.Exported() || fn.Obj.Name() == "init" || fn.Obj.Name() == "main" {
+		if fn.Decl.Body == nil || fn.Obj.Exported() || p.standsForExported[fn] || fn.Obj.Name() == "init" || fn.Obj.Name() == "main" {
 			continue
 		}
 		if valueUse[fn.Obj.Origin()] {
@@ -879,7 +879,7 @@ func (p *Prog) ownersAllowed(fn *Func, pred func(*Func) bool, depth int) bool {
 // finding recorded for a construct keeps applying when the construct moves into a private helper).
 func (p *Prog) keyOwner(fn *Func) *Func {
 	for i := 0; i < 6; i++ {
-		if p.baselineKnown == nil || p.baselineKnown[fn.Name] || fn.Obj.Exported() {
+		if p.baselineKnown == nil || p.baselineKnown[fn.Name] || fn.Obj.Exported() || p.standsForExported[fn] {
 			break // a function of the reference tree keeps its own name
 		}
 		if hs := p.HelperSite(fn); hs != nil {
